@@ -10,17 +10,30 @@
 package c17
 
 import (
+	"bytes"
 	"context"
 	"encoding/json"
 	"errors"
 	"fmt"
+	"io"
 	"io/fs"
+	"net/http"
+	"net/http/httptest"
+	"os"
+	"path/filepath"
 	"runtime"
 	"sort"
 	"strings"
 	"sync"
 	"testing"
 	"testing/fstest"
+	"time"
+
+	"cuelabs.dev/go/oci/ociregistry/ociclient"
+	"cuelabs.dev/go/oci/ociregistry/ocimem"
+	"cuelabs.dev/go/oci/ociregistry/ociserver"
+	"cuelang.org/go/mod/modcache"
+	"cuelang.org/go/mod/modzip"
 
 	"cuelang.org/go/internal/mod/modload"
 	"cuelang.org/go/mod/modfile"
@@ -67,12 +80,16 @@ type Case struct {
 	FSPark   float64         `json:"fs_park,omitempty"`
 	Faults   []CallFault     `json:"faults,omitempty"`
 	CancelAt int             `json:"cancel_at,omitempty"` // cancel the context at the CancelAt-th registry call
+	// Stack: "" = in-memory registry stub; "cache" = the real stack the cue command uses: mod/modcache
+	// (memoising module files and zips, real cache directory) over mod/modregistry over ociclient, with
+	// the wire simulated by a parking http.RoundTripper in front of ociserver/ocimem.
+	Stack string `json:"stack,omitempty"`
 }
 
 func (c *Case) SchedCfg() *sim.SchedConfig { return &c.Sched }
 
 func (c *Case) Summary() any {
-	return map[string]any{"policy": c.Sched.Policy, "gomaxprocs": c.Procs, "registry": c.Mods, "main_deps": c.MainDeps, "main_pkgs": c.MainPkgs,
+	return map[string]any{"policy": c.Sched.Policy, "stack": c.Stack, "gomaxprocs": c.Procs, "registry": c.Mods, "main_deps": c.MainDeps, "main_pkgs": c.MainPkgs,
 		"faults": c.Faults, "cancel_at": c.CancelAt, "fs_park": c.FSPark, "yield_park": c.Sched.YieldPark}
 }
 
@@ -337,14 +354,24 @@ func gen(seed uint64, tier string, idx int) sim.CaseI {
 			c.Sched.Sticky = 0.6
 		}
 	}
-	// fault plan
+	if kr.Bool(0.15) {
+		c.Stack = "cache"
+	}
+	// fault plan (schedules only over the real stack: its error texts and retry behaviour are its own)
 	switch kr.Intn(10) {
 	case 0, 1:
+		if c.Stack == "cache" {
+			break
+		}
 		c.Faults = append(c.Faults, CallFault{Method: []string{"Fetch", "ModFile", "ModuleVersions"}[kr.Intn(3)], N: kr.Range(1, 8)})
 	case 2:
-		c.Faults = append(c.Faults, CallFault{Method: "FS", N: kr.Range(1, 60)})
+		if c.Stack != "cache" {
+			c.Faults = append(c.Faults, CallFault{Method: "FS", N: kr.Range(1, 60)})
+		}
 	case 3:
-		c.CancelAt = kr.Range(1, 12)
+		if c.Stack != "cache" {
+			c.CancelAt = kr.Range(1, 12)
+		}
 	}
 	return c
 }
@@ -468,7 +495,9 @@ func buildUniverse(c *Case, mainDeps []Req) (*universe, error) {
 	}
 	for p := range u.versions {
 		vs := u.versions[p]
-		sort.Slice(vs, func(i, j int) bool { return module.MustNewVersion(p, vs[i]).Compare(module.MustNewVersion(p, vs[j])) < 0 })
+		sort.Slice(vs, func(i, j int) bool {
+			return module.MustNewVersion(p, vs[i]).Compare(module.MustNewVersion(p, vs[j])) < 0
+		})
 	}
 	u.mainFS = fstest.MapFS{"cue.mod/module.cue": &fstest.MapFile{Data: []byte(modFileText(mainPath, mainDeps))}}
 	for _, p := range c.MainPkgs {
@@ -495,6 +524,7 @@ type harness struct {
 	inflight int
 	maxFly   int
 	quiet    bool // reference run: no parking, no faults
+	reg      modload.Registry
 }
 
 var errInjected = errors.New("injected registry failure")
@@ -642,6 +672,102 @@ func (p parkFS) Stat(name string) (fs.FileInfo, error) {
 	return p.fsys.Stat(name)
 }
 
+// ---------- the real registry stack (Stack == "cache") ----------
+
+// parkRT is the simulated wire: every request is a scheduling point, the
+// response is produced by the in-process OCI server, and a request whose
+// context has been cancelled meanwhile fails like a real one.
+type parkRT struct {
+	h       *harness
+	handler http.Handler
+}
+
+func (rt parkRT) RoundTrip(req *http.Request) (*http.Response, error) {
+	if err := rt.h.call(req.Context(), "HTTP", req.Method+" "+req.URL.Path); err != nil {
+		return nil, err
+	}
+	rec := httptest.NewRecorder()
+	rt.handler.ServeHTTP(rec, req)
+	resp := rec.Result()
+	resp.Request = req
+	return resp, nil
+}
+
+type memFile struct {
+	name string
+	data []byte
+}
+
+type memFileIO struct{}
+
+func (memFileIO) Path(f memFile) string                { return f.name }
+func (memFileIO) Lstat(f memFile) (os.FileInfo, error) { return memFileInfo{f}, nil }
+func (memFileIO) Open(f memFile) (io.ReadCloser, error) {
+	return io.NopCloser(bytes.NewReader(f.data)), nil
+}
+
+type memFileInfo struct{ f memFile }
+
+func (fi memFileInfo) Name() string       { return filepath.Base(fi.f.name) }
+func (fi memFileInfo) Size() int64        { return int64(len(fi.f.data)) }
+func (fi memFileInfo) Mode() os.FileMode  { return 0o644 }
+func (fi memFileInfo) ModTime() time.Time { return time.Time{} }
+func (fi memFileInfo) IsDir() bool        { return false }
+func (fi memFileInfo) Sys() any           { return nil }
+
+var cacheScratch = func() string {
+	for _, d := range []string{"/dev/shm", os.TempDir()} {
+		if fi, err := os.Stat(d); err == nil && fi.IsDir() {
+			if p, err := os.MkdirTemp(d, "cuesim-c17-"); err == nil {
+				return p
+			}
+		}
+	}
+	panic("no scratch directory")
+}()
+
+var cacheRuns int
+
+// newCacheStack uploads the universe into a fresh in-memory OCI registry and
+// returns a modcache.Cache over it, on a fresh cache directory.
+func newCacheStack(h *harness, c *Case) (modload.Registry, func(), error) {
+	// (modregistrytest.Upload pushes modules in dependency order and does not
+	// terminate on cyclic requirements, which generated universes have.)
+	mem := ocimem.New()
+	direct := modregistry.NewClient(mem)
+	var mvs []module.Version
+	for mv := range h.u.mods {
+		mvs = append(mvs, mv)
+	}
+	module.Sort(mvs)
+	for _, mv := range mvs {
+		var files []memFile
+		for name, f := range h.u.mods[mv].files {
+			files = append(files, memFile{name, f.Data})
+		}
+		sort.Slice(files, func(i, j int) bool { return files[i].name < files[j].name })
+		var zip bytes.Buffer
+		if err := modzip.Create(&zip, mv, files, memFileIO{}); err != nil {
+			return nil, nil, fmt.Errorf("zip %v: %v", mv, err)
+		}
+		if err := direct.PutModule(context.Background(), mv, bytes.NewReader(zip.Bytes()), int64(zip.Len())); err != nil {
+			return nil, nil, fmt.Errorf("put %v: %v", mv, err)
+		}
+	}
+	cl, err := ociclient.New("registry.test", &ociclient.Options{Transport: parkRT{h, ociserver.New(mem, nil)}, Insecure: true})
+	if err != nil {
+		return nil, nil, err
+	}
+	cacheRuns++
+	dir := filepath.Join(cacheScratch, fmt.Sprintf("run%d", cacheRuns))
+	os.MkdirAll(dir, 0o777)
+	cache, err := modcache.New(modregistry.NewClient(cl), dir)
+	if err != nil {
+		return nil, nil, err
+	}
+	return cache, func() { modcache.RemoveAll(dir) }, nil
+}
+
 // ---------- execution ----------
 
 // canonFile renders the parts of a module file the property is about.
@@ -677,7 +803,11 @@ func (o tidyOutcome) String() string {
 }
 
 func runTidy(h *harness, mainFS fstest.MapFS) tidyOutcome {
-	res, err := modload.Tidy(h.ctx, parkFS{h, mainFS, "main"}, ".", simRegistry{h}, nil)
+	var reg modload.Registry = simRegistry{h}
+	if h.reg != nil {
+		reg = h.reg
+	}
+	res, err := modload.Tidy(h.ctx, parkFS{h, mainFS, "main"}, ".", reg, nil)
 	if err != nil {
 		return tidyOutcome{err: err}
 	}
@@ -703,7 +833,7 @@ var (
 // reference computes the outcome under the canonical schedule (callbacks
 // answered in program order, no fault), once per universe.
 func reference(t *testing.T, c *Case) tidyOutcome {
-	key, _ := json.Marshal([]any{c.Mods, c.MainDeps, c.MainPkgs})
+	key, _ := json.Marshal([]any{c.Mods, c.MainDeps, c.MainPkgs, c.Stack})
 	refMu.Lock()
 	if o, ok := refCache[string(key)]; ok {
 		refMu.Unlock()
@@ -716,6 +846,14 @@ func reference(t *testing.T, c *Case) tidyOutcome {
 	}
 	s := sim.NewSched(sim.SchedConfig{Policy: "sequential", MaxSteps: 100000, YieldPark: 0}, false)
 	h := &harness{c: &Case{}, s: s, u: u, calls: map[string]int{}, faults: map[string]int{}, cnt: map[string]int{}}
+	if c.Stack == "cache" {
+		reg, cleanup, err := newCacheStack(h, c)
+		if err != nil {
+			sim.Trouble("cache stack: %v", err)
+		}
+		defer cleanup()
+		h.reg = reg
+	}
 	var out tidyOutcome
 	sim.RunBubble(t, s, func() {
 		h.ctx, h.cancel = context.WithCancel(context.Background())
@@ -765,6 +903,15 @@ func exec1(t *testing.T, ci sim.CaseI, choices []uint32, keepLog bool) *sim.Outc
 	}
 	s := sim.NewSched(cfg, keepLog)
 	h := &harness{c: c, s: s, u: u, calls: map[string]int{}, faults: map[string]int{}, cnt: map[string]int{}}
+	if c.Stack == "cache" {
+		reg, cleanup, err := newCacheStack(h, c)
+		if err != nil {
+			sim.Trouble("cache stack: %v", err)
+		}
+		defer cleanup()
+		h.reg = reg
+		h.cnt["runs-over-the-real-cache-stack"]++
+	}
 	var first, second tidyOutcome
 	var checkErr error
 	var didSecond bool
@@ -790,7 +937,11 @@ func exec1(t *testing.T, ci sim.CaseI, choices []uint32, keepLog bool) *sim.Outc
 			fs2["cue.mod/module.cue"] = &fstest.MapFile{Data: first.text}
 			second = runTidy(h, fs2)
 			s.Logf("tidy(tidy) -> %s", second)
-			checkErr = modload.CheckTidy(h.ctx, parkFS{h, fs2, "main"}, ".", simRegistry{h}, nil)
+			var reg modload.Registry = simRegistry{h}
+			if h.reg != nil {
+				reg = h.reg
+			}
+			checkErr = modload.CheckTidy(h.ctx, parkFS{h, fs2, "main"}, ".", reg, nil)
 			s.Logf("checktidy -> %v", checkErr != nil)
 			didSecond = true
 		})
@@ -1049,13 +1200,19 @@ func resolves(c *Case, u *universe, o tidyOutcome, cnt map[string]int) *sim.Viol
 }
 
 var Prop = &sim.Prop{
-	ID:   "C17",
-	New:  func() sim.CaseI { return &Case{} },
-	Gen:  gen,
-	Exec: exec,
-	Rule: "case = generated universe (1-6 module paths x 1-3 versions incl. pre-releases, nested module paths that can both provide a package, second major versions, packages that exist only from a later version on, stdlib and missing imports, @ignore() and _tool files, explicit- and default-major imports) x main module with stale/partial/excessive/empty dependency list x scheduler policy and knobs (loader queue width via GOMAXPROCS 1/2/4/32, park probability of file-system operations and of the yields inside flag propagation, shuffled version listing) x fault plan (n-th registry call fails, an FS read fails, context cancelled at the n-th registry call), all from the run seed; non-trivial = at least two registry/FS calls were in flight at the same time; distinct = distinct hash of the full event log",
-	Real: []string{"internal/mod/modload (Tidy, CheckTidy, resolveDependencies, updateRoots, tidyRoots, queryImport)", "internal/mod/modpkgload", "internal/mod/modrequirements", "internal/mod/mvs.Graph", "internal/mod/modimports", "internal/par (Queue, Cache)", "mod/modfile (Parse, Format)", "cue/parser (import scanning)"},
+	ID:    "C17",
+	New:   func() sim.CaseI { return &Case{} },
+	Gen:   gen,
+	Exec:  exec,
+	Rule:  "case = generated universe (1-6 module paths x 1-3 versions incl. pre-releases, nested module paths that can both provide a package, second major versions, packages that exist only from a later version on, stdlib and missing imports, @ignore() and _tool files, explicit- and default-major imports) x main module with stale/partial/excessive/empty dependency list x scheduler policy and knobs (loader queue width via GOMAXPROCS 1/2/4/32, park probability of file-system operations and of the yields inside flag propagation, shuffled version listing) x fault plan (n-th registry call fails, an FS read fails, context cancelled at the n-th registry call), all from the run seed; non-trivial = at least two registry/FS calls were in flight at the same time; distinct = distinct hash of the full event log",
+	Real:  []string{"internal/mod/modload (Tidy, CheckTidy, resolveDependencies, updateRoots, tidyRoots, queryImport)", "internal/mod/modpkgload", "internal/mod/modrequirements", "internal/mod/mvs.Graph", "internal/mod/modimports", "internal/par (Queue, Cache)", "mod/modfile (Parse, Format)", "cue/parser (import scanning)"},
 	Stubs: []string{"registry: in-memory modload.Registry whose three methods park in the simulator", "file systems: in-memory fs.FS for the main module and every module version, operations may park or fail"},
 }
 
 func TestWorker(t *testing.T) { sim.WorkerMain(t, Prop) }
+
+func TestMain(m *testing.M) {
+	code := m.Run()
+	os.RemoveAll(cacheScratch)
+	os.Exit(code)
+}
